@@ -17,19 +17,56 @@ func RocksDBStore.Mutate
   props C07 C14
   requires s.db != nil
   requires forall k int :: 0 <= k && k < len(mutations) ==> mutations[k] != nil && int(mutations[k].Table) < len(s.cfHandles)
-  modifies dbWrites, lastWritePuts, lastWriteHadLogData, batchPuts, batchHasLogData
+  modifies dbWrites, lastWritePuts, lastWriteHadLogData, batchPuts, batchHasLogData, lastPutKey, lastPutVal, lastPutCF
   ensures C07/one-write: dbWrites == old(dbWrites) + 1
   ensures C07/all-mutations-in-that-write: len(mutations) == lastWritePuts && lastWriteHadLogData
-  loop 1 modifies batchPuts
+  loop 1 modifies batchPuts, lastPutKey, lastPutVal, lastPutCF
   loop 1 invariant batchPuts == rangeindex + 1 && rangeindex < len(mutations) && batchHasLogData && dbWrites == old(dbWrites)
 
 func RocksDBStore.Get
   props C14
   requires s.db != nil && int(table) < len(s.cfHandles)
+  modifies lastGetKey, lastGetCF
   ensures isnil(result_1) ==> result_0 != nil && result_0.Key == key
+  ensures C14/reads-that-table: lastGetKey == bytes(key) && lastGetCF == s.cfHandles[table]
 
 func RocksDBStore.GetLast
   props C14
   requires s.db != nil && int(table) < len(s.cfHandles)
   ensures isnil(result_1) ==> result_0 != nil
+
+// ---- C16: what the Go side contributes to backups (the backup engine itself is assumed) ----
+
+immutable RocksDBStore.backupEngine, RocksDBStore.restoreOpts by NewRocksDBStoreWithOpts, RocksDBStore.Close
+
+// one engine backup per call, carrying the caller's metadata unchanged
+func RocksDBStore.Backup
+  props C16
+  requires s.backupEngine != nil
+  modifies backupCalls, lastBackupMeta
+  ensures C16/one-backup-with-that-metadata: backupCalls == old(backupCalls) + 1 && lastBackupMeta == metadata
+
+// exactly the named backup is deleted
+func RocksDBStore.DeleteBackup
+  props C16
+  requires s.backupEngine != nil
+  modifies deleteBackupCalls, lastDeletedBackup
+  ensures C16/only-the-named-backup: deleteBackupCalls == old(deleteBackupCalls) + 1 && lastDeletedBackup == backupID
+
+// the restore is asked for the named backup into the named directories, in that order
+func RocksDBStore.RestoreFromBackup
+  props C16
+  requires s.backupEngine != nil
+  modifies restoreCalls, lastRestoreID, lastRestoreDir, lastRestoreWal
+  ensures C16/restore-arguments: restoreCalls == old(restoreCalls) + 1 && lastRestoreID == backupID && lastRestoreDir == dbDir && lastRestoreWal == walDir
+
+// listing shows EVERY backup the engine reports: entry k is built from the engine's k-th record
+func RocksDBStore.GetBackupsInfo
+  props C16
+  requires s.backupEngine != nil
+  modifies lastBackupInfo
+  ensures C16/every-backup-listed: forall k int :: 0 <= k && k < len(result) ==> result[k] != nil && result[k].ID == bk_id(lastBackupInfo, k) && result[k].Metadata == bk_meta(lastBackupInfo, k) && result[k].Timestamp == bk_ts(lastBackupInfo, k) && result[k].Size == bk_size(lastBackupInfo, k) && result[k].NumFiles == bk_files(lastBackupInfo, k)
+  loop 1 modifies backupsInfo[*]
+  loop 1 invariant 0 <= i && i <= len(backupsInfo) && bi != nil && bi == lastBackupInfo && fresh(backupsInfo)
+  loop 1 invariant forall k int :: 0 <= k && k < i ==> backupsInfo[k] != nil && backupsInfo[k].ID == bk_id(bi, k) && backupsInfo[k].Metadata == bk_meta(bi, k) && backupsInfo[k].Timestamp == bk_ts(bi, k) && backupsInfo[k].Size == bk_size(bi, k) && backupsInfo[k].NumFiles == bk_files(bi, k)
 @*/
